@@ -110,10 +110,13 @@ def judge(tokens, outs, layout, suffix, p, nrunning):
     """render + parse + judge_obs"""
     from . import sieve_impl as I
     data, spans = R.render(tokens, layout, suffix)
-    if len(data) % 2:
+    if len(data) % 4 == 1:
         # the same parser object has just read (and rejected) a script that required every extension and
         # left comments pending: nothing of it may influence this parse
         p.parse(POISON)
+    elif len(data) % 4 == 3:
+        # ... or *another*, more recently created Parser object did (the judged parser is the older one)
+        _ctx["parser2"].parse(POISON)
     o = I.run_parse(p, data, rt=_ctx.get("roundtrip", False))
     failed = judge_obs(o, data, spans, len(tokens), outs)
     if _ctx.get("named") and o["verdict"] is True:
@@ -247,6 +250,7 @@ def init_worker(ctx):
         fn, arg = ctx["worker_setup"]
         fn(arg)
     _ctx["parser"] = I.new_parser()
+    _ctx["parser2"] = I.new_parser()        # created after the judged one, used only for poison parses
 
 
 def work(lines):
